@@ -839,6 +839,12 @@ class Interp:
                    {"labels": lab3})
         self.events[(frame.ctx, bb, -1)] = ev
         allowed = None
+        # 0. a discriminant switch that names every variant of the enum: the `otherwise` edge (kept by unoptimised MIR for a
+        #    trailing `_` arm) is infeasible
+        if info and info.get("variants"):
+            allv = set(info["variants"].keys())
+            if allv and allv <= {v for (v, tb) in labels[:-1]}:
+                allowed = {tb for (v, tb) in labels[:-1]}
         # 1. constant / known-variant pruning
         c = const_of(opv)
         if c is not None:
@@ -852,7 +858,7 @@ class Interp:
             if tgt is not None:
                 allowed = {tgt}
         kv = known_variants(opv, frame, self)
-        if kv is not None and allowed is None:
+        if kv is not None and (allowed is None or (info and info.get("variants"))):
             al = set()
             explicit = set()
             for (v, tb, vn) in lab3[:-1]:
@@ -1100,6 +1106,10 @@ def join_store(a, b):
 
 
 def mkpred(name, *args):
+    if name == "is_zero" and len(args) == 1:
+        a = const_of(args[0])
+        if a is not None and re.match(r"^\d+(_[iu]\d+|_usize)?$", a):
+            return V("Const(true)" if re.match(r"^0+(_|$)", a) else "Const(false)")     # zero().is_zero()
     if name in ("eq", "ne", "lt", "le", "gt", "ge") and len(args) == 2:
         a, b = const_of(args[0]), const_of(args[1])
         if a is not None and a == b and re.match(r"^-?\d+(_[iu]\d+|_usize)?$|^(true|false)$", a):
